@@ -126,7 +126,12 @@ def step (st : CState) (toks : List String) : Option (CState × String) :=
     if di = si then none else
     let dst := st.node di; let src := st.node si
     let needs := Needs.computeAvailableNeeds dst.syncState src.syncState
-    let flat := needs.flatMap fun an => an.2.map fun nd => (an.1, nd)
+    -- canonical order (the real partial needs come out of a HashMap): per actor, Full by start, then Partial by version
+    let needKey : Needs.Need → Nat
+      | .full lo _ => lo
+      | .part v _ => 1000000000 + v
+    let flat := needs.flatMap fun an =>
+      (an.2.foldl (fun acc nd => Corro.Node.insertSortedBy needKey nd acc) []).map fun nd => (an.1, nd)
     let msgs := flat.flatMap fun an => handleNeed src an.1 an.2
     let kept ← applyFilter f msgs
     let dst' := if kept.isEmpty then dst else dst.deliver kept
